@@ -1,5 +1,6 @@
 import ShootVerif.Proofs.MapperExec
 import ShootVerif.Proofs.MapperTables
+import ShootVerif.Proofs.MapperResolve
 /-!
 C09 — ToX and FromX never panic and FromX fully resets its receiver.
 
@@ -80,6 +81,32 @@ theorem C09_no_panic (inp : Input) (h : WF09 inp = true) (N : List String) :
     simp only [List.nil_append] at this
     simp only [bind, Except.bind, this, ofExcept, idealFrom, idealStart, hctor.2, List.nil_append]
 
+/-- `WF09` itself follows from clauses about the INPUT (no clause about the plan's statements but "the pointer-embedded
+    mapper type is not called"): plain sides, every field name resolves by Go's rule (`wfSelectors`, a clause of the
+    grammar), no promoted `map:"-"` field with a deeper namesake (C05's F_skipShadow). The per-statement clauses of `WF09`
+    ("the generator's Path of the field is the path Go resolves the emitted selector to") are DERIVED: the field collector
+    keeps, for every name, the leaf Go selects (`flatten_resolves`: shallowest, unique at its depth, not a left-out one) -/
+theorem C09_WF_of_input (inp : Input) (hs : inp.srcNew = false) (hd : inp.destNew = false)
+    (hm : (inp.mapperPtr != some true || (!hasFunc (plan inp).toStmts && !hasFunc (plan inp).fromStmts)) = true)
+    (h1 : wfSelectors inp.src = true) (h2 : wfSelectors inp.dest = true) (hsh : F_skipShadow inp = false) :
+    WF09 inp = true := WF09_of_input inp hs hd hm h1 h2 hsh
+
+/-- headline, hypotheses on the input only: no mapper type embedded by pointer, plain sides, names resolve, no skip-shadow ⇒
+    for EVERY nil assignment ToX and FromX run without panic and compute the ideal result, whatever the receiver held -/
+theorem C09_no_panic_input (inp : Input) (hs : inp.srcNew = false) (hd : inp.destNew = false)
+    (hm : inp.mapperPtr ≠ some true)
+    (h1 : wfSelectors inp.src = true) (h2 : wfSelectors inp.dest = true) (hsh : F_skipShadow inp = false) (N : List String) :
+    execTo inp N = .value (idealTo inp (plan inp) (tables inp (plan inp)) N) ∧
+    ∀ recv, execFrom inp N recv = .value (idealFrom inp (plan inp) (tables inp (plan inp)) N) :=
+  C09_no_panic inp (WF09_of_input inp hs hd (by simp [hm]) h1 h2 hsh) N
+
+/-- every emitted selector of a plain side resolves, by Go's rule, to the field the generator planned with: same path
+    (what the guards and allocations are computed from), same type, same name, and not a `map:"-"` field -/
+theorem C09_selector_agrees (t : Tree) (hsel : wfSelectors t = true) (hsh : skipShadowT t = false)
+    (f : Field) (hf : f ∈ flatten t) :
+    ∃ l, goResolve t f.name = some l ∧ l ∈ leavesOf t ∧ l.path = f.path ∧ l.decl.ty = f.ty ∧ l.decl.name = f.name ∧
+      l.depth = f.depth ∧ l.decl.tag ≠ .skip := flatten_resolves t hsel hsh f hf
+
 /-- headline: the result of FromX does not depend on the receiver (nil, freshly allocated, or dirty) -/
 theorem C09_reset (inp : Input) (h : WF09 inp = true) (N : List String) (r₁ r₂ : Recv) :
     execFrom inp N r₁ = execFrom inp N r₂ := by
@@ -129,6 +156,8 @@ def exWF09 : Input :=
               (.field { name := "Subs", ty := .slice subD } .nil))) }
 
 example : WF09 exWF09 = true ∧ region09 exWF09 = "WF" := by decide
+example : exWF09.srcNew = false ∧ exWF09.destNew = false ∧ exWF09.mapperPtr ≠ some true ∧ wfSelectors exWF09.src = true ∧
+    wfSelectors exWF09.dest = true ∧ F_skipShadow exWF09 = false := by decide
 example : (tables exWF09 (plan exWF09)).destAlloc = [["Core"]] ∧
     (tables exWF09 (plan exWF09)).srcAlloc = [["Base"], ["Base", "Inner"]] := by decide
 example : (execTo exWF09 ["Base.Inner", "P", "Subs#1"]).show (leavesOf exWF09.dest) =
